@@ -293,10 +293,10 @@ func gen() {
 	fmt.Printf("Definition StreamOnCloseFound : bool := %s.\nDefinition StreamOnCloseAssignsNilReader : bool := %s.\nDefinition StreamOnCloseAssignsNilWriter : bool := %s.\n", coqBool(fnd), coqBool(nr), coqBool(nw))
 	fmt.Printf("Definition StreamCloseNilsReader : bool := %s.\nDefinition StreamCloseNilsWriter : bool := %s.\n", coqBool(br), coqBool(bw))
 	sf, sfirst, spawns := tunnelStartShape()
-	fmt.Println("(* (*Tunnel).Start: SetCtx precedes the Connecting->Connected CompareAndSwap; number of go statements *)")
+	fmt.Println("(* Tunnel.Start: SetCtx precedes the Connecting->Connected CompareAndSwap; number of go statements *)")
 	fmt.Printf("Definition TunnelStartShapeFound : bool := %s.\nDefinition TunnelStartSetCtxBeforeCas : bool := %s.\nDefinition TunnelStartSpawns : nat := %d.\n", coqBool(sf), coqBool(sfirst), spawns)
 	wf, whold := sourceWriterShape()
-	fmt.Println("(* (*dynamicSourceWriter).Write: sourceConnMu.RLock still held while the forwarder's Write runs *)")
+	fmt.Println("(* dynamicSourceWriter.Write: sourceConnMu.RLock still held while the forwarder's Write runs *)")
 	fmt.Printf("Definition SourceWriterShapeFound : bool := %s.\nDefinition SourceWriterHoldsLockAcrossWrite : bool := %s.\n", coqBool(wf), coqBool(whold))
 	fmt.Printf("Definition BatchUpdateThreshold : N := %d%%N.\n", int64(constants.BatchUpdateThreshold))
 }
